@@ -39,6 +39,7 @@ pub fn assumptions() -> Vec<String> {
         "entry points on a rejected builder: Err text must equal Display of E::from(check_ref error) (the entry point's own From conversion); a panic or Ok is a failure; probes (counting Rng, counting Distance, counting model for Platt) must stay untouched where the builder takes one",
         "entry points on an accepted builder are compared with the checked form (Debug text or PartialEq of the fitted model, partition for hierarchical clustering whose ids follow HashMap order, sorted vocabulary for CountVectorizer, output shape only for t-SNE) only when every value lies in the per-parameter interval the tiny training run is exercised with (e.g. not with Platt minstep = 0 or SVM eps = 0, where training does not terminate in reasonable time); otherwise only check/check_ref are exercised",
         "every entry point (fit, fit_with, transform, fit_vocabulary) is exercised twice: with the ordinary tiny dataset / batch and with an EMPTY one (zero samples, same columns; empty kernel, empty document array, empty word list) - signatures <row>:<entry>_empty:*. A rejected builder must answer the empty input with exactly the check_ref error too (checking comes before looking at the data); an accepted builder must do whatever check()?.entry(empty) does (degenerate model, error text, or panic - a panic of BOTH is accepted, most estimators do not guard against zero samples and that is not C04's subject)",
+        "datasets handed to fit / fit_with carry sample weights and feature names on odd seeds; k-means, GMM, FastICA and random projection (target type free) and the multi-task / PLS rows get two target columns, the others their 1-D targets. Builders whose transform also has a dataset form (DBSCAN, hierarchical clustering, t-SNE) are exercised through the array form AND the dataset form, the latter with two-column and with 1-D targets, weights (absent when seed % 4 == 0) and feature names; the unchecked builder's result must equal the checked form's in everything that is handed through: shape, targets, weights, feature names (and records / cluster partition where reproducible; the t-SNE embedding itself is not compared)",
         "a training failure that depends on the data (power method not converged, Platt not converged, JL dimension larger than the feature count) is an accepted outcome when the unchecked builder and the checked form fail with the same text",
         "history cases: a builder is configured with a first assignment, one of {check_ref, check on a copy, the training entry point} runs on it (outcome ignored), then the same builder (or a clone taken afterwards) is re-configured through its setters; verdict, error text, checked value, builder equality and training result must equal those of a fresh builder configured directly with the second assignment. Parameters that can only be given to the constructor (k-means / GMM n_clusters, DBSCAN / OPTICS min_points) are equal in both assignments. The first training run only happens when the first assignment lies in the trainable intervals",
         "SVM history cases with an odd seed: the first life selects the other of the two mutually exclusive variants (Nu 0.4 resp. C weights (7, 3), always valid) with the solver eps / Platt values of the first assignment; the setter under test must displace it (checked value: the other variant must read back as None, as the setters' code and the 'either C or Nu' docs promise). The valid/invalid label of the first assignment of those cases refers to the row's own table and is approximate for the non-trivial count",
@@ -71,7 +72,7 @@ const NONE: &[usize] = &[];
 macro_rules! run_fit {
     ($fname:ident, $err:ty, base: $base:expr, set: $set:expr, read: $read:expr, data: $data:expr, same: $same:expr) => {
         fn $fname(cx: &Ctx, obs: &mut Obs) {
-            let ds = $data(cx);
+            let ds = data::decorate($data(cx), cx.seed);
             let ds0 = data::empty_ds(&ds);
             let base = $base;
             let set = $set;
@@ -166,7 +167,7 @@ mod clustering {
         type P = KMeansParams<f64, CountRng, CountDist>;
         type IE = IncrKMeansError<KMeans<f64, CountDist>>;
         let (rp, dp) = (Probe::new(), Probe::new());
-        let ds = DatasetBase::from(data::blobs(cx.seed, 12, 2));
+        let ds = data::decorate(DatasetBase::new(data::blobs(cx.seed, 12, 2), data::two_targets(12)), cx.seed);
         let ds0 = data::empty_ds(&ds);
         let base = |v: &[f64]| -> P { KMeans::params_with(cnt(v, 0), CountRng::new(cx.seed, &rp), CountDist(dp.clone())) };
         let x0 = data::blobs(cx.seed, 12, 2);
@@ -274,6 +275,44 @@ mod clustering {
         };
         fit_core(obs, &g, &v, &hb, "transform", &|b| b.transform(&x), &|c| Ok(c.transform(&x)), &|| dp.get(), &dbg);
         fit_core_empty(obs, &g, &v, &hb, "transform_empty", &|b| b.transform(&x0), &|c| Ok(c.transform(&x0)), &|| dp.get(), &dbg);
+        // dataset forms (records + targets + weights + names in, the same dataset with the cluster ids as targets out)
+        type Out = DatasetBase<ndarray::Array2<f64>, ndarray::Array1<Option<usize>>>;
+        let summary = |d: Out| (data::parts(&d), format!("{:?}", d.records()));
+        let two = |x: &ndarray::Array2<f64>| data::full(DatasetBase::new(x.clone(), data::two_targets(x.nrows())), cx.seed);
+        let one = |x: &ndarray::Array2<f64>| data::full(DatasetBase::new(x.clone(), data::class_targets(x.nrows(), 2)), cx.seed);
+        fit_core::<_, (data::Parts, String), linfa_clustering::DbscanParamsError>(
+            obs,
+            &g,
+            &v,
+            &hb,
+            "transform_dataset",
+            &|b| Transformer::<_, Result<Out, _>>::transform(b, two(&x)).map(summary),
+            &|c| Ok(summary(Transformer::<_, Out>::transform(c, two(&x)))),
+            &|| dp.get(),
+            &eq,
+        );
+        fit_core::<_, (data::Parts, String), linfa_clustering::DbscanParamsError>(
+            obs,
+            &g,
+            &v,
+            &hb,
+            "transform_dataset_1d_targets",
+            &|b| Transformer::<_, Result<Out, _>>::transform(b, one(&x)).map(summary),
+            &|c| Ok(summary(Transformer::<_, Out>::transform(c, one(&x)))),
+            &|| dp.get(),
+            &eq,
+        );
+        fit_core_empty::<_, (data::Parts, String), linfa_clustering::DbscanParamsError>(
+            obs,
+            &g,
+            &v,
+            &hb,
+            "transform_dataset_empty",
+            &|b| Transformer::<_, Result<Out, _>>::transform(b, two(&x0)).map(summary),
+            &|c| Ok(summary(Transformer::<_, Out>::transform(c, two(&x0)))),
+            &|| dp.get(),
+            &eq,
+        );
     }
 
     fn optics(cx: &Ctx, obs: &mut Obs) {
@@ -306,7 +345,7 @@ mod clustering {
     fn gmm(cx: &Ctx, obs: &mut Obs) {
         type P = GmmParams<f64, CountRng>;
         let rp = Probe::new();
-        let ds = DatasetBase::from(data::blobs(cx.seed, 16, 2));
+        let ds = data::decorate(DatasetBase::new(data::blobs(cx.seed, 16, 2), data::two_targets(16)), cx.seed);
         let ds0 = data::empty_ds(&ds);
         // constructed with another generator; `with_rng` (first in the canonical order) installs the real one
         let base = |v: &[f64]| -> P { GaussianMixtureModel::params_with_rng(cnt(v, 0), CountRng::new(cx.seed ^ 0x5eed, &rp)) };
@@ -615,7 +654,7 @@ mod svm {
     macro_rules! run_svm {
         ($fname:ident, $t:ty, $set:expr, $other:expr, $read:expr, $data:expr) => {
             fn $fname(cx: &Ctx, obs: &mut Obs) {
-                let ds = $data(cx);
+                let ds = data::decorate($data(cx), cx.seed);
                 let ds0 = data::empty_ds(&ds);
                 let base = |_: &[f64]| Svm::<f64, $t>::params();
                 let set = $set;
@@ -760,7 +799,7 @@ mod misc {
 
     fn gnb(cx: &Ctx, obs: &mut Obs) {
         type P = GaussianNbParams<f64, usize>;
-        let ds = labelled(cx);
+        let ds = data::decorate(labelled(cx), cx.seed);
         let ds0 = data::empty_ds(&ds);
         let base = |_: &[f64]| -> P { GaussianNb::<f64, usize>::params() };
         let set = |b: P, v: &[f64]| b.var_smoothing(at(v, 0));
@@ -802,7 +841,7 @@ mod misc {
 
     fn mnb(cx: &Ctx, obs: &mut Obs) {
         type P = MultinomialNbParams<f64, usize>;
-        let ds = DatasetBase::new(data::counts(cx.seed, 12, 3), data::class_targets(12, 2));
+        let ds = data::decorate(DatasetBase::new(data::counts(cx.seed, 12, 3), data::class_targets(12, 2)), cx.seed);
         let ds0 = data::empty_ds(&ds);
         let base = |_: &[f64]| -> P { MultinomialNb::<f64, usize>::params() };
         let set = |b: P, v: &[f64]| b.alpha(at(v, 0));
@@ -845,7 +884,7 @@ mod misc {
     fn ftrl(cx: &Ctx, obs: &mut Obs) {
         type P = FtrlParams<f64, CountRng>;
         let rp = Probe::new();
-        let ds = DatasetBase::new(data::blobs(cx.seed, 10, 2), data::bool_targets(10));
+        let ds = data::decorate(DatasetBase::new(data::blobs(cx.seed, 10, 2), data::bool_targets(10)), cx.seed);
         let ds0 = data::empty_ds(&ds);
         let base = |_: &[f64]| -> P { Ftrl::<f64>::params_with_rng(CountRng::new(cx.seed, &rp)) };
         let set = |b: P, v: &[f64]| {
@@ -930,7 +969,7 @@ mod misc {
         let mut y = data::bool_targets(12);
         y[0] = true;
         y[11] = false;
-        let ds = DatasetBase::new(x, y);
+        let ds = data::decorate(DatasetBase::new(x, y), cx.seed);
         let ds0 = data::empty_ds(&ds);
         let base = |_: &[f64]| -> P { Platt::<f64, Scorer>::params() };
         let set = |b: P, v: &[f64]| {
@@ -1014,6 +1053,53 @@ mod misc {
             "transform_empty",
             &|b| b.transform(kernel0()).map(|d| partition(d.targets())),
             &|c| Ok(partition(c.transform(kernel0()).targets())),
+            &|| 0,
+            &eq,
+        );
+        // dataset forms (kernel + targets + weights + names in, kernel + cluster ids out)
+        let summary = |d: DatasetBase<Kernel<f64>, Vec<usize>>| {
+            let ids = partition(d.targets());
+            let (dims, _, w, names) = data::parts(&d);
+            (dims, format!("{ids:?}"), w, names)
+        };
+        let two = |k: Kernel<f64>| {
+            let n = linfa::dataset::Records::nsamples(&k);
+            data::full(DatasetBase::new(k, data::two_targets(n)), cx.seed)
+        };
+        let one = |k: Kernel<f64>| {
+            let n = linfa::dataset::Records::nsamples(&k);
+            data::full(DatasetBase::new(k, data::class_targets(n, 2)), cx.seed)
+        };
+        fit_core::<_, data::Parts, HierarchicalError<f64>>(
+            obs,
+            &g,
+            &v,
+            &hb,
+            "transform_dataset",
+            &|b| b.transform(two(kernel())).map(summary),
+            &|c| Ok(summary(c.transform(two(kernel())))),
+            &|| 0,
+            &eq,
+        );
+        fit_core::<_, data::Parts, HierarchicalError<f64>>(
+            obs,
+            &g,
+            &v,
+            &hb,
+            "transform_dataset_1d_targets",
+            &|b| b.transform(one(kernel())).map(summary),
+            &|c| Ok(summary(c.transform(one(kernel())))),
+            &|| 0,
+            &eq,
+        );
+        fit_core_empty::<_, data::Parts, HierarchicalError<f64>>(
+            obs,
+            &g,
+            &v,
+            &hb,
+            "transform_dataset_empty",
+            &|b| b.transform(two(kernel0())).map(summary),
+            &|c| Ok(summary(c.transform(two(kernel0())))),
             &|| 0,
             &eq,
         );
@@ -1140,6 +1226,42 @@ mod reduction {
             &|| rp.get(),
             &eq,
         );
+        // dataset forms: the embedding is not reproducible, everything that is handed through (targets, weights, names, shape) is
+        let two = |x: &ndarray::Array2<f64>| data::full(DatasetBase::new(x.clone(), data::two_targets(x.nrows())), cx.seed);
+        let one = |x: &ndarray::Array2<f64>| data::full(DatasetBase::new(x.clone(), data::class_targets(x.nrows(), 2)), cx.seed);
+        fit_core::<_, data::Parts, TSneError>(
+            obs,
+            &g,
+            &v,
+            &hb,
+            "transform_dataset",
+            &|b| b.transform(two(&x)).map(|d| data::parts(&d)),
+            &|c| c.transform(two(&x)).map(|d| data::parts(&d)),
+            &|| rp.get(),
+            &eq,
+        );
+        fit_core::<_, data::Parts, TSneError>(
+            obs,
+            &g,
+            &v,
+            &hb,
+            "transform_dataset_1d_targets",
+            &|b| b.transform(one(&x)).map(|d| data::parts(&d)),
+            &|c| c.transform(one(&x)).map(|d| data::parts(&d)),
+            &|| rp.get(),
+            &eq,
+        );
+        fit_core_empty::<_, data::Parts, TSneError>(
+            obs,
+            &g,
+            &v,
+            &hb,
+            "transform_dataset_empty",
+            &|b| b.transform(two(&x0)).map(|d| data::parts(&d)),
+            &|c| c.transform(two(&x0)).map(|d| data::parts(&d)),
+            &|| rp.get(),
+            &eq,
+        );
     }
 
     macro_rules! pls {
@@ -1149,7 +1271,7 @@ mod reduction {
                 let y1 = data::regression_targets(&x, cx.seed);
                 let y2 = data::regression_targets(&x, cx.seed + 5).mapv(|t| t * t);
                 let y = ndarray::stack![ndarray::Axis(1), y1, y2];
-                let ds = DatasetBase::new(x, y);
+                let ds = data::decorate(DatasetBase::new(x, y), cx.seed);
                 let ds0 = data::empty_ds(&ds);
                 let base = |_: &[f64]| $ty::<f64>::params(2);
                 let set = |b: paste_ty!($ty), v: &[f64]| {
@@ -1197,7 +1319,7 @@ mod reduction {
             }),
         ]),
         read: Some(&|c| vec![c.tol()]),
-        data: |cx: &Ctx| DatasetBase::from(data::blobs(cx.seed, 16, 2)),
+        data: |cx: &Ctx| DatasetBase::new(data::blobs(cx.seed, 16, 2), data::two_targets(16)),
         same: eqd);
 
     fn diffusion(cx: &Ctx, obs: &mut Obs) {
@@ -1249,7 +1371,7 @@ mod reduction {
             fn $name(cx: &Ctx, obs: &mut Obs) {
                 type P = linfa_reduction::random_projection::$pty<CountRng>;
                 let rp = Probe::new();
-                let ds = DatasetBase::from(data::blobs(cx.seed, 4, 80));
+                let ds = data::decorate(DatasetBase::new(data::blobs(cx.seed, 4, 80), data::two_targets(4)), cx.seed);
                 let ds0 = data::empty_ds(&ds);
                 let probe_x = data::blobs(cx.seed + 1, 3, 80);
                 // constructed with another generator; `with_rng` (builder-transforming, first in the canonical order)
